@@ -226,6 +226,47 @@ func runC10(c *an.Ctx) {
 		}
 	}
 
+	// a range the store has is served, not refused: with a valid, bounded request
+	//  (a) HasAt(to−1) ⇒ the handler reaches GetRange and no NOT_FOUND return lies before it;
+	//  (b) ¬HasAt(to−1) ∧ from ≤ Head < to ⇒ likewise (the partial range [from, Head] is served)
+	{
+		hasAts := invokesOf(rt, "HasAt", func(s string) bool { return s == "p0.store" })
+		heads := invokesOf(rt, "Head", func(s string) bool { return s == "p0.store" })
+		if c.Check(len(hasAts) == 1 && len(heads) == 1 && len(getRanges) >= 1, "C10.b", "serve-decision", "the range handler decides between serving, clamping and refusing on HasAt(to−1) and the store head", rng, nil, "", nil) {
+			has := an.B(rt.Of(hasAts[0]))
+			headH := "Height(" + rt.Of(heads[0]) + "#0)"
+			valid := []an.Fact{an.LT("p2", "p3"), an.NE("p2", "0"), an.GE(fmt.Sprint(maxSize), "(-p2+p3)")}
+			for _, cs := range []struct {
+				name   string
+				assume []an.Fact
+			}{
+				{"stored-range-served", append(append([]an.Fact{}, valid...), has)},
+				{"partial-range-served", append(append([]an.Fact{}, valid...), has.Neg(), an.EQ(rt.Of(heads[0])+"#1", "nil"), an.LE("p2", headH), an.LT(headH, "p3"))},
+			} {
+				pra := rf.Prune(cs.assume...)
+				okServe := false
+				for _, g := range getRanges {
+					if pra.Reachable(g.Block()) {
+						okServe = true
+					}
+				}
+				var refusal ssa.Instruction
+				for _, r := range pra.Returns() {
+					early := true
+					for _, g := range getRanges {
+						if (an.Flow{Fn: rng, Skip: pra.Removed}).MustPrecede(func(in ssa.Instruction) bool { return in == ssa.Instruction(g) }, r) {
+							early = false
+						}
+					}
+					if early {
+						okServe, refusal = false, r
+					}
+				}
+				c.Check(okServe, "C10.b", cs.name, "a valid request for a range the store holds (entirely, or up to its head) reaches store.GetRange; nothing refuses it before", rng, refusal, an.FactSet(cs.assume).String(), nil)
+			}
+		}
+	}
+
 	// --- C10.c wrap-around guard and head request
 	mix := an.LT("p2", "p3")
 	for _, sc := range storeCalls {
@@ -341,18 +382,32 @@ func runC10(c *an.Ctx) {
 			if bodyVal != nil {
 				okBody := false
 				var elem ssa.Value
+				okSel := true
 				if ph, ok := bodyVal.(*ssa.Phi); ok {
-					for _, e := range ph.Edges {
+					for _, pe := range hf.PhiOperands(ph) {
+						e := pe.Val
 						if ex, ok := e.(*ssa.Extract); ok && ex.Index == 0 {
 							if mc, ok := ex.Tuple.(*ssa.Call); ok && mc.Call.IsInvoke() && mc.Call.Method.Name() == "MarshalBinary" {
 								elem = mc.Call.Value
 								okBody = true
+								// marshalled only for a non-zero header, and only a successful marshalling is written
+								okSel = okSel && pe.Facts.Has(an.NotB("IsZero("+ht.Of(elem)+")")) && pe.Facts.Has(an.EQ(ht.Of(mc)+"#1", "nil"))
 							}
 						} else if cst, ok := e.(*ssa.Const); !ok || cst.Value != nil {
 							okBody = false
+						} else if elem != nil || true {
+							// the empty body stands for a zero header (the NOT_FOUND placeholder)
+							zero := false
+							for _, f := range pe.Facts {
+								if f.Op == "B" && f.Pos && strings.HasPrefix(f.A, "IsZero(") {
+									zero = true
+								}
+							}
+							okSel = okSel && zero
 						}
 					}
 				}
+				c.Check(okSel, "C10.f", "body-selection", "a body is the marshalling of a non-zero header that succeeded; the empty body is written only for a zero header", handler, w, "", nil)
 				walkOK := false
 				var src ssa.Value
 				if u, ok := elem.(*ssa.UnOp); ok {
